@@ -407,6 +407,28 @@ def resume_value_forwarding(chk: Check, rule: str) -> None:
     chk.ob(rule, we, ok_null, 'resume value forwarded to the continuation exactly when it is not NULL '
            '(f(v) after resume(v), f() after resume())', kind='resume-value-forwarded')
     resume_value_reaches_future(chk, rule)
+    step_wrapper_returns_result_unchanged(chk, rule)
+    from .common import event_guard_accepts_subclasses
+    event_guard_accepts_subclasses(chk, rule)
+    # "f() if resumed without a value" is decided by ``value == NULL``: the sentinel must equal nothing but itself
+    nul = [c for c in prog.all_classes() if c.module.short == 'lang' and c.name.strip('_') == 'NULL']
+    for c in nul:
+        eq = c.vmethods.get('__eq__')
+        if eq is None:
+            chk.ob(rule, c.qualname, True, 'the no-value sentinel compares by identity', kind='null-equals-only-itself', expr='__eq__')
+            continue
+        op = eq.params[1] if len(eq.params) > 1 else 'other'
+        okforms = {f'isinstance({op}, self.__class__)', f'isinstance({op}, type(self))', f'{op} is self', f'self is {op}', f'type({op}) is type(self)', f'type({op}) is self.__class__'}
+        rets = [r for r in ast.walk(eq.node) if isinstance(r, ast.Return)]
+        ok = bool(rets) and all(r.value is not None and (norm(r.value) in okforms or norm(r.value) in ('False', 'NotImplemented')) for r in rets)
+        chk.ob(rule, eq, ok, 'the no-value sentinel equals only itself (were it equal to None, 0 or anything a caller may pass, resume(<that value>) would run f() instead of f(value))',
+               node=rets[0] if rets else None, kind='null-equals-only-itself')
+    chk.need(bool(nul), 'the NULL sentinel class was not found in lang')
+
+
+def step_wrapper_returns_result_unchanged(chk: Check, rule: str) -> None:
+    """utils.ensure_coroutine's wrapper around a plain (non-async) callable hands back what the callable returned, untouched."""
+    prog = chk.prog
     # every synchronous step function runs through utils.ensure_coroutine's wrapper: what the step returned must come out of it AS IT IS -- the running
     # state classifies the value (command / plain result), a wrapper that looks inside it (awaits it, unwraps it) decides in its place
     ec = prog.try_func('utils.ensure_coroutine.wrap')
@@ -426,22 +448,6 @@ def resume_value_forwarding(chk: Check, rule: str) -> None:
         ok = len(rets_) == 1 and rets_[0].value is not None and want_ is not None and _R2(ec).text(rets_[0].value) == want_ and not touched and all(v == 1 for v in stores_.values())
         chk.ob(rule, ec, ok, 'the coroutine wrapper of a plain step function returns exactly what the function returned (no await / unwrapping of the value in between)',
                node=touched[0] if touched else (rets_[0] if rets_ else None), kind='wrapper-returns-result-unchanged')
-    from .common import event_guard_accepts_subclasses
-    event_guard_accepts_subclasses(chk, rule)
-    # "f() if resumed without a value" is decided by ``value == NULL``: the sentinel must equal nothing but itself
-    nul = [c for c in prog.all_classes() if c.module.short == 'lang' and c.name.strip('_') == 'NULL']
-    for c in nul:
-        eq = c.vmethods.get('__eq__')
-        if eq is None:
-            chk.ob(rule, c.qualname, True, 'the no-value sentinel compares by identity', kind='null-equals-only-itself', expr='__eq__')
-            continue
-        op = eq.params[1] if len(eq.params) > 1 else 'other'
-        okforms = {f'isinstance({op}, self.__class__)', f'isinstance({op}, type(self))', f'{op} is self', f'self is {op}', f'type({op}) is type(self)', f'type({op}) is self.__class__'}
-        rets = [r for r in ast.walk(eq.node) if isinstance(r, ast.Return)]
-        ok = bool(rets) and all(r.value is not None and (norm(r.value) in okforms or norm(r.value) in ('False', 'NotImplemented')) for r in rets)
-        chk.ob(rule, eq, ok, 'the no-value sentinel equals only itself (were it equal to None, 0 or anything a caller may pass, resume(<that value>) would run f() instead of f(value))',
-               node=rets[0] if rets else None, kind='null-equals-only-itself')
-    chk.need(bool(nul), 'the NULL sentinel class was not found in lang')
 
 
 def resume_value_reaches_future(chk: Check, rule: str) -> None:
